@@ -151,6 +151,10 @@ func ParseValidators(extra []byte) ([][]byte, error) {
 		return nil, sdkerrors.Wrap(ErrInvalidValidatorBytes, "(validatorsBytes % AddressLength) should bz zero")
 	}
 	n := len(validatorBytes) / addressLength
+	if n == 0 {
+		// a client without validators can never accept a header, and the empty pending set cannot be exported
+		return nil, sdkerrors.Wrap(ErrInvalidValidatorBytes, "epoch header carries no validators")
+	}
 	result := make([][]byte, n)
 	for i := 0; i < n; i++ {
 		address := make([]byte, addressLength)
